@@ -46,6 +46,35 @@ def handle (toks : List String) : Option String :=
       pure ("|".intercalate (ls.map fun l => showLimited full (emitLimited m l)))
     | _ => pure "undecodable"
   -- a `RecordTypeSet` built with `new` (no original encoding): `NSEC::new(root, types)` emitted afresh
+  -- an SVCB / HTTPS value built from its parts (keys in the given order, a fixed value per key), encoded
+  | ["svcbenc", ty, keys] => do
+    let t ← ty.toNat?
+    let ks ← (if keys == "-" then some [] else (keys.splitOn ",").mapM String.toNat?)
+    let val (k : Nat) : SvcVal :=
+      if k = 0 then .mandatory [1]
+      else if k = 1 then .alpn [[104, 50]]
+      else if k = 2 then .noDefaultAlpn
+      else if k = 3 then .port 443
+      else if k = 4 then .ipv4hint [192, 0, 2, 1]
+      else if k = 5 then .ech [1, 2, 3]
+      else if k = 6 then .ipv6hint [32, 1, 13, 184, 0, 0, 0, 0, 0, 0, 0, 0, 0, 0, 0, 1]
+      else .unknown [k % 256, 7]
+    match emitRData t (.svcb 1 Name.root (ks.map fun k => (k, val k))) (Enc.new []) with
+    | .ok _ e => pure ("ok " ++ toHex e.buf)
+    | .err _ _ => pure "err"
+    | .panic s => pure ("panic " ++ s)
+  -- a response whose Edns value carries `stale` as rcode_high while the message's response code is
+  -- (high, low): `emit_message_parts` overwrites it (`set_rcode_high(response_code.high())`)
+  | ["ednsrc", _via, low, high, stale, version, dok, z, payload] => do
+    let low ← low.toNat?; let high ← high.toNat?; let stale ← stale.toNat?; let version ← version.toNat?
+    let z ← z.toNat?; let payload ← payload.toNat?
+    let m : Message :=
+      { md := { id := 4369, qr := true, op := 0, aa := false, tc := false, rd := false, ra := false, ad := false,
+                cd := false, rcode := high * 16 + low }
+        queries := [], answers := [], authorities := [], additionals := [], signature := none
+        edns := some { rcodeHigh := stale, version := version, dnssecOk := dok == "1", z := z,
+                       maxPayload := max payload 512, options := [] } }
+    pure (showLimited true (emitLimited m 65535))
   | ["undec", hex] => do
     let buf ← parseHex hex
     match decode buf with
@@ -72,7 +101,8 @@ def handle (toks : List String) : Option String :=
           additionals := m.additionals, signature := m.signature, edns := responseEdns reqEdns }
       pure (showLimited true (encodeResponse r p))
     | _ => pure "undecodable"
-  | ["rt", hex] => do
+  | [kind, hex] => do
+    if kind != "rt" && kind != "rtok" then none
     let buf ← parseHex hex
     match decode buf with
     | .ok (m, _) =>
